@@ -197,6 +197,28 @@ class CellSim(object):
                            src['retention'], group, src['inst_traits'],
                            src['once'])
 
+    def op_capclone(self, idx, prio):
+        """Like clone (same shape, same demand), aimed at a placed member of
+        an identity group whose allocation has a utilisation cap: the clone
+        outranks it inside the allocation and pushes it over the cap."""
+        cands = []
+        for pos, name in enumerate(self.app_order):
+            decl = self.decl_apps[name]
+            capped = self.allocs[decl['alloc']][1].get('maxutil') is not None
+            if self.cell.apps[name].server and capped:
+                cands.append((0 if decl['group'] is not None else 1, pos))
+        if not cands:
+            return self.op_clone(idx, prio, [0, 0, 0])
+        best = min(c[0] for c in cands)
+        pool = [pos for kind, pos in cands if kind == best]
+        src = self.decl_apps[self.app_order[pool[idx % len(pool)]]]
+        aff_i = [a['name'] for a in self.affs].index(src['aff'])
+        group = None if src['group'] is None else int(src['group'][1:])
+        self.stats_count('capclone_aimed')
+        return self.op_app(src['alloc'], aff_i, list(src['demand']), prio,
+                           src['lease'], src['retention'], group,
+                           src['inst_traits'], src['once'])
+
     def op_rm(self, idx):
         app = self._app(idx)
         # aim: instances that lost their server outside a cycle and still
